@@ -46,6 +46,7 @@ type Contract struct {
 	Pkg      string // import path
 	Func     string // name relative to package, e.g. (*buffer).encodeReal
 	Mode     string // "bits" or "math"
+	NoSafety string // non-empty: no safety obligations are generated for this function; the text says why
 	Inline   bool
 	Trusted  bool
 	Requires []Clause
@@ -273,6 +274,12 @@ func (cs *ContractSet) loadFile(path, repo string) error {
 				c.SplitExpr, c.SplitVals = e, vals
 			} else {
 				c.MoreSplits = append(c.MoreSplits, splitSpec{e, vals})
+			}
+		case "nosafety":
+			// run-time safety (bounds, nil, ...) of this function is not claimed; the reason is reported as an assumption
+			c.NoSafety = strings.TrimSpace(rest)
+			if c.NoSafety == "" {
+				return fail("nosafety needs a reason")
 			}
 		case "needs":
 			c.Uses = append(c.Uses, strings.Fields(rest)...)
